@@ -150,6 +150,7 @@ def run(ctx):
                        "allowed alternatives (daemon Success reply; PamStatus(Some(true)); local shadow entry found ∧ not expired ∧ check_pw). "
                        "K4: CryptPw::from_str / check_pw extracted as tables (unsupported, locked, empty → Invalid → false). "
                        "Global scan: any other success site must be allow-listed. Decides the guard structure, not the crypt verifiers.")
+    ctx.exhaustive = True      # every success / secret-carrying site of the crates is enumerated, not sampled
     conn = ctx.fn(PAM, CORE + "sm_authenticate_connected")
     fall = ctx.fn(PAM, CORE + "sm_authenticate_fallback")
     acct = ctx.fn(PAM, CORE + "acct_mgmt")
@@ -291,6 +292,7 @@ def run(ctx):
     judged = {conn["fn"], fall["fn"], acct["fn"]}
     n_err = 0
     n_scan = 0
+    n_judged_seen = 0
     crates = [PAM] + [c for c in ENTRY_CRATES if (c + ".lib") in F.crates()]
     for crate in crates:
         for name in F.fns_mentioning(crate, "PamResultCode"):
@@ -322,8 +324,17 @@ def run(ctx):
                               f"`Err({ex_s(node['args'][0])})` of a PamResult is built without the guard not(PAM_SUCCESS == code) "
                               f"(guards {pc.render(lits)[:6]}): the authentication functions return this payload unchanged, so an 'error' could be PAM_SUCCESS",
                               **loc(rec, node))
-            # (2) PAM_SUCCESS value sites outside the judged functions
+            # (2) conversions that could fabricate a PamResultCode (PAM_SUCCESS == 0) without naming the constant
+            for node in walk(root):
+                if node.get("e") in ("call", "mcall") and "PamResultCode" in node.get("ty", "") and \
+                        any(ends(callee_of(node), x) for x in ("mem::transmute", "intrinsics::transmute", "mem::zeroed", "mem::transmute_copy",
+                                                               "MaybeUninit::<T>::assume_init", "MaybeUninit::<T>::zeroed")):
+                    ctx.violation("K1-success-scan", name, "fabricated-result-code:" + short(callee_of(node), 1),
+                                  f"a PamResultCode is produced by {callee_of(node)} (PAM_SUCCESS is the zero value): the result is not a named constant the rule can judge",
+                                  **loc(rec, node))
+            # (3) PAM_SUCCESS value sites outside the judged functions
             if name in judged:
+                n_judged_seen += len(success_sites(root))
                 continue
             for node in success_sites(root):
                 n_scan += 1
@@ -334,8 +345,9 @@ def run(ctx):
                           "(sm_authenticate_connected, sm_authenticate_fallback, acct_mgmt) nor on the allow-list of session hooks — "
                           "its guards are not known to the rule (add a K3 alternative or an allow-list entry with a reason)",
                           **loc(rec, node))
-    ctx.floor("K3-err-nonsuccess", "non-constant Err(code) sites in the PAM crate", n_err, 5)
-    ctx.floor("K1-success-scan", "allow-listed PAM_SUCCESS sites", n_scan, 4)
+    ctx.floor("K3-err-nonsuccess", "non-constant Err(code) sites in the PAM crate", n_err, 4)
+    # positive control of the global scan: it must have seen the judged sites (allow-listed sites may legitimately disappear)
+    ctx.floor("K1-success-scan", "PAM_SUCCESS value sites seen by the global scan in the judged functions", n_judged_seen, 4)
     ctx.floor("K3", "authentication/authorisation PAM_SUCCESS sites", n_auth_sites, 4)
 
     # ---- K2-wiring ---------------------------------------------------------------
